@@ -136,7 +136,7 @@ let () = read_lines (fun line ->
       let tr = M.run_trace exec cfg M.init_state (List.map parse_event (list_of evs)) in
       Printf.printf "%s %s\n" id
         (String.concat ";" (List.map (fun o -> join_or_dash "," (List.map string_of_obs o)) tr))
-    | ["stream"; id; guard; evs] ->
+    | ["stream"; id; guard; evs] | ["wdb"; id; guard; evs; _] ->
       let evs = List.map parse_sevent (list_of evs) in
       let (_, tr) = M.stream_run (guard = "1") evs in
       if List.mem M.SPanicked tr then Printf.printf "%s PANIC\n" id
@@ -212,7 +212,7 @@ let () = read_lines (fun line ->
       (* the schedule the harness forces, then Run receives <recvs> calls, takes the close branch and drains *)
       let i = int_of_string in
       let cfg = { M.sd_cap = nat_of_int (i k); M.sd_linger_pos = (l = "1"); M.sd_max = nat_of_int (i mx);
-                  M.sd_wait_for_adders = true } in
+                  M.sd_rule = M.RuleFinalDrain } in
       let next = ref 0 in
       let fresh () = let c = !next in incr next; n_of_int c in
       let evs = ref [] in
@@ -233,10 +233,12 @@ let () = read_lines (fun line ->
       for _ = 1 to i recvs do push M.ERunRecv done;
       push M.ERunClose;
       for _ = 1 to (i k + i late + 2) do push M.EDrainOne done;
-      push M.EDrainEnd;                       (* adding <> 0 while parked senders have not decremented: the loop goes on *)
+      push M.EDrainDefault; push M.EDrainCheck;   (* adding <> 0 while parked senders have not decremented: back to the loop *)
       finish_all ();
       for _ = 1 to (i late + 2) do push M.EDrainOne done;
-      push M.EDrainEnd;
+      push M.EDrainDefault; push M.EDrainCheck;   (* adding = 0: the final drain *)
+      for _ = 1 to (i late + 2) do push M.EDrainOne done;
+      push M.EDrainDefault;
       let (st, o) = M.sd_run cfg M.sd_init (List.rev !evs) in
       let count c = List.length (List.filter (fun (x, _) -> x = c) o) in
       let tail = if st.M.sd_run_done then "" else ",RUN-NOT-DONE" in
